@@ -46,7 +46,7 @@ func (g *G) pick(xs []string) string { return xs[g.R.IntN(len(xs))] }
 
 // bigNums: rarely used literals at the int64 / 2^53 / int32 boundaries, in
 // integer and in floating-point spelling.
-var bigNums = []string{"9007199254740993", "9007199254740992.0", "9007199254740992", "9223372036854775807", "9.223372036854775807e18", "2147483648", "1e19", "4611686018427387904"}
+var bigNums = []string{"9007199254740993", "9007199254740992.0", "9007199254740992", "9223372036854775807", "9.223372036854775807e18", "2147483648", "1e19", "4611686018427387904", "1e308", "1.7976931348623157e308", "1e-320"}
 
 func (g *G) num() *N {
 	s := g.pick(g.C.Nums)
@@ -275,6 +275,9 @@ func (g *G) Expr(depth int, inFilter, inSub bool) *N {
 			var h *N
 			if g.R.IntN(3) == 0 {
 				h = g.Pred(depth-1, inFilter, inSub)
+			} else if g.C.Arith && g.R.IntN(4) == 0 {
+				// (-$.a).abs(), (+@) ? (...): a unary operator with steps after it
+				h = &N{K: KUn, S: g.pick([]string{"-", "+"}), A: g.Chain(depth-1, inFilter, inSub)}
 			} else if g.C.Arith {
 				h = &N{K: KBin, S: g.pick(arithOps), A: g.Expr(depth-1, inFilter, inSub), B: g.Expr(depth-1, inFilter, inSub)}
 			} else {
